@@ -56,6 +56,11 @@ def handleWrite (op : String) (j : Json) : Option (Except String Json) :=
     let text ← getStr j "text"
     let ext ← extOfJson (← j.getObjVal? "ext")
     pure (resultToJson (readCsv ext sep text))
+  | "read_csv_path" => some do        -- the raw bytes-as-text of the file; universal newlines applied by the model
+    let sep ← wGetChar j "sep"
+    let text ← getStr j "text"
+    let ext ← extOfJson (← j.getObjVal? "ext")
+    pure (resultToJson (readCsvPath ext sep text))
   | "wf_check" => some do
     let ts ← (← getArr j "tables").mapM wTableValOfJson
     let sep ← wGetChar j "sep"
